@@ -102,6 +102,9 @@ type AuthorRequest struct {
 // Validate all fields on this type
 func (a *AuthorRequest) Validate() error {
 	// validate
+	if err := fitsUint8(a.User.Len(), a.Port.Len(), a.RemAddr.Len(), len(a.Args)); err != nil {
+		return err
+	}
 	for _, t := range []Field{a.Method, a.PrivLvl, a.Type, a.Service, a.User, a.Port, a.RemAddr} {
 		if err := t.Validate(a.Type); err != nil {
 			return err
@@ -281,6 +284,12 @@ func NewAuthorReplyFromBytes(data []byte) (*AuthorReply, error) {
 // Validate all fields on this type
 func (a *AuthorReply) Validate() error {
 	// validate
+	if err := fitsUint16(a.ServerMsg.Len(), a.Data.Len()); err != nil {
+		return err
+	}
+	if err := fitsUint8(len(a.Args)); err != nil {
+		return err
+	}
 	for _, t := range []Field{a.Status, a.ServerMsg, a.Data} {
 		if err := t.Validate(nil); err != nil {
 			return err
